@@ -37,9 +37,10 @@ Definition create_range (st : lst) (raw : N) (len : N) : range :=
   let col := raw - snd st in
   mkRange (mkPos line col) (mkPos line (col + len)).
 
-(* create_token(pos, type, value) *)
+(* create_token(pos, type, value): the range length is value.chars().count() (since /repo f444e80; before, it
+   was value.len(), the UTF-8 byte length utf8_len above, while columns count characters) *)
 Definition create_token (st : lst) (raw : N) (ty : ttype) (v : str) : tok :=
-  mkTok raw (create_range st raw (utf8_len v)) ty v.
+  mkTok raw (create_range st raw (lenN v)) ty v.
 
 Definition is_word_start (c : N) : bool := is_alpha c || (c =? 95).
 Definition is_word_char (c : N) : bool := is_alpha c || is_digit c || (c =? 95).
